@@ -8,6 +8,10 @@ import (
 	"github.com/reeflective/readline/internal/color"
 )
 
+// maxIterations is the largest numeric argument given to commands:
+// most of them repeat their action as many times as the argument says.
+const maxIterations = 10000
+
 // Iterations manages iterations for commands.
 type Iterations struct {
 	times   string // Stores iteration value
@@ -59,6 +63,13 @@ func (i *Iterations) Get() int {
 	// At least one iteration
 	if times == 0 {
 		times++
+	}
+
+	// And not more than commands can reasonably repeat.
+	if times > maxIterations {
+		times = maxIterations
+	} else if times < -maxIterations {
+		times = -maxIterations
 	}
 
 	i.times = ""
